@@ -1038,6 +1038,52 @@ fn run_case(lines: &[String], out: &mut impl Write, tick_ms: u64) {
                     Err(e) => say(&w, format!("dispatch end err {}", err_class(&e))),
                 }
             }
+            "blockon" => {
+                // EventLoop::block_on of a future that is ready at its N-th poll and wakes itself at every earlier one:
+                // N-1 turns of (events, idles).  An error ends block_on; it is called again for the turns that are left.
+                let n: usize = t[1].parse().unwrap_or(2);
+                let mut remaining = std::cmp::max(1, n.saturating_sub(1));
+                let before = Instant::now();
+                while remaining > 0 {
+                    struct Fut {
+                        left: usize,
+                        w: Rc<World>,
+                    }
+                    impl std::future::Future for Fut {
+                        type Output = ();
+                        fn poll(mut self: std::pin::Pin<&mut Self>, cx: &mut std::task::Context<'_>) -> std::task::Poll<()> {
+                            if self.left == 0 {
+                                return std::task::Poll::Ready(());
+                            }
+                            self.left -= 1;
+                            say(&self.w, "> dispatch".into());
+                            say(&self.w, "dispatch begin".into());
+                            cx.waker().wake_by_ref();
+                            std::task::Poll::Pending
+                        }
+                    }
+                    let done = Rc::new(Cell::new(0usize));
+                    let d2 = done.clone();
+                    let w2 = w.clone();
+                    let r = el.block_on(Fut { left: remaining, w: w.clone() }, &mut (), move |_| {
+                        say(&w2, "dispatch end ok".into());
+                        d2.set(d2.get() + 1);
+                    });
+                    match r {
+                        Ok(_) => remaining = 0,
+                        Err(e) => {
+                            say(&w, format!("dispatch end err {}", err_class(&e)));
+                            remaining = remaining.saturating_sub(done.get() + 1);
+                        }
+                    }
+                }
+                let after = Instant::now();
+                let lo = w.t0 + w.tick * (w.now_tick.get() as u32);
+                let hi = lo + w.tick;
+                if before <= lo + w.tick / 8 || after >= hi - w.tick / 8 {
+                    straddle = true;
+                }
+            }
             _ => exec_op(&w, line, false),
         }));
         if let Err(p) = res {
